@@ -57,6 +57,14 @@ def _claims(ctx, run, u, dx, cfl, nu, dim, rho):
         ctx.claim("dt_strictly_positive", dt > 0)
     else:
         ctx.claim("dt_strictly_positive", dt > 0 and np.isfinite(dt))
+    # finite: no division whose denominator can vanish on this path (exact reals have no inf; the replay tests isfinite)
+    if ctx.sym:
+        from symsopht import sym as S
+
+        dens = [n.args[0] for n in S.topo([S.lift(dt)]) if n.op == "inv"]
+        ctx.claim("dt_finite(no_vanishing_denominator)", S.And(*[S.Not(S._cmp("eq", d, S.ZERO)) for d in dens]) if dens else True)
+    else:
+        ctx.claim("dt_finite(no_vanishing_denominator)", bool(np.isfinite(dt)))
     for i, s in enumerate(_amax_abs_sum(u)):
         ctx.le(f"advective_limit[cell{i}]", dt * s, cfl * dx * (1 + rho))
     ctx.le("diffusive_limit", nu * dt, (0.9 / (2 * dim)) * dx * dx * (1 + rho))
